@@ -46,6 +46,9 @@ type c14Rule struct {
 	Bt        string     `json:"bt"`
 	ForwardTo bool       `json:"forward_to"`
 	EmptyIf   bool       `json:"emptyif"`
+	// EmptyOE: no error handlers, written as an explicitly empty list (on_error: []) instead of leaving
+	// the property out - the rule defines none either way
+	EmptyOE bool `json:"emptyoe"`
 }
 
 type c14Obs struct {
@@ -115,6 +118,10 @@ func c14Concretise(g c14Gen, rng *rand.Rand) c14Case {
 		c.Rule.OnError = append(c.Rule.OnError, c14Entry{K: k, Step: c14Name{fmt.Sprintf("%s%d", prefix, i+1)}})
 	}
 
+	if len(g.OnError) == 0 && rng.Intn(2) == 0 {
+		c.Rule.EmptyOE = true
+	}
+
 	// now and then: an empty `if` on a conditional step
 	if rng.Intn(25) == 0 {
 		for i := range c.Rule.Execute {
@@ -171,6 +178,10 @@ func c14Execute(c c14Case) []config.MechanismConfig {
 
 func c14OnError(c c14Case) []config.MechanismConfig {
 	var out []config.MechanismConfig
+
+	if c.Rule.EmptyOE {
+		out = []config.MechanismConfig{}
+	}
 
 	for _, e := range c.Rule.OnError {
 		switch e.K {
